@@ -371,6 +371,112 @@ pub fn check_tie_fast(sizes: &[usize], keys: &[u8]) -> Option<(String, String)> 
 }
 
 // ---------------------------------------------------------------------------------------------
+// composite sort keys
+
+/// TopDocs::order_by with tuples of 2, 3 and 4 key components - fast fields `g`, `r`, `h` and the relevance
+/// score in every position, natural and explicitly ascending components: every limit x offset window equals the
+/// slice of the model ranking (component by component, ties by ascending address), and every returned
+/// component is the document's true value (the score bit-exact: one scoring clause).
+pub fn check_composite_keys(sizes: &[usize], keys: &[u8], threads: usize) -> Option<(String, String)> {
+    use tantivy::collector::sort_key::{SortBySimilarityScore, SortByStaticFastValue};
+    let mut sb = Schema::builder();
+    let id = sb.add_u64_field("id", INDEXED | FAST | STORED);
+    let body = sb.add_text_field("body", TEXT);
+    let g = sb.add_u64_field("g", FAST);
+    let r = sb.add_u64_field("r", FAST);
+    let h = sb.add_u64_field("h", FAST);
+    let mut index = Index::create_in_ram(sb.build());
+    let mut w: IndexWriter = index.writer_with_num_threads(1, 15_000_000).unwrap();
+    w.set_merge_policy(Box::new(tantivy::merge_policy::NoMergePolicy));
+    let mut i = 0usize;
+    for &sz in sizes {
+        for _ in 0..sz {
+            let mut d = TantivyDocument::default();
+            d.add_u64(id, i as u64);
+            // relevance differs between documents (term frequency and length), with some exact ties
+            d.add_text(body, format!("{}{}", "a ".repeat(1 + i % 3), "x ".repeat(i % 2)));
+            d.add_u64(g, keys[i] as u64);
+            d.add_u64(r, (i / 2 % 2) as u64);
+            d.add_u64(h, (i % 3) as u64);
+            w.add_document(d).unwrap();
+            i += 1;
+        }
+        w.commit().unwrap();
+    }
+    let n = i;
+    if threads > 1 {
+        index.set_multithread_executor(threads).unwrap();
+    }
+    let searcher = index.reader().unwrap().searcher();
+    let tq = tantivy::query::TermQuery::new(tantivy::Term::from_field_text(body, "a"), IndexRecordOption::WithFreqs);
+    let scores: BTreeMap<(u32, u32), f32> = searcher.search(&tq, &AllScores).unwrap().into_iter().map(|(s, a)| (addr_key(&a), s)).collect();
+    if scores.len() != n {
+        return Some(("machinery".into(), format!("{} of {n} documents match", scores.len())));
+    }
+    // model components of a document: 0 = g, 1 = r, 2 = h, 3 = score
+    let comp = |a: &DocAddress, c: usize| -> f64 {
+        let idv = id_of(&searcher, *a) as usize;
+        match c {
+            0 => keys[idv] as f64,
+            1 => (idv / 2 % 2) as f64,
+            2 => (idv % 3) as f64,
+            _ => scores[&addr_key(a)] as f64,
+        }
+    };
+    let addrs: Vec<DocAddress> = scores.keys().map(|(s, d)| DocAddress::new(*s, *d)).collect();
+    let model = |spec: &[(usize, bool)]| -> Vec<(Vec<f64>, DocAddress)> {
+        let mut v: Vec<(Vec<f64>, DocAddress)> = addrs.iter().map(|a| (spec.iter().map(|(c, _)| comp(a, *c)).collect(), *a)).collect();
+        v.sort_by(|x, y| {
+            for (k, (_, asc)) in spec.iter().enumerate() {
+                let o = x.0[k].partial_cmp(&y.0[k]).unwrap();
+                let o = if *asc { o } else { o.reverse() };
+                if o != std::cmp::Ordering::Equal {
+                    return o;
+                }
+            }
+            addr_key(&x.1).cmp(&addr_key(&y.1))
+        });
+        v
+    };
+    let fu = |x: Option<u64>| x.map(|v| v as f64).unwrap_or(-1.0);
+    let fg = || SortByStaticFastValue::<u64>::for_field("g");
+    let fr = || SortByStaticFastValue::<u64>::for_field("r");
+    let fh = || SortByStaticFastValue::<u64>::for_field("h");
+    let sc = || SortBySimilarityScore;
+    let asc = Order::Asc;
+    macro_rules! case {
+        ($name:expr, $spec:expr, $mk:expr, $conv:expr) => {{
+            let spec: Vec<(usize, bool)> = $spec;
+            let want = model(&spec);
+            let get = |k: usize, o: usize| -> Vec<(Vec<f64>, DocAddress)> {
+                let hits = searcher.search(&tq, &TopDocs::with_limit(k).and_offset(o).order_by($mk)).unwrap();
+                hits.into_iter().map(|(key, a)| ($conv(key), a)).collect()
+            };
+            let full = get(n + 3, 0);
+            if full != want {
+                let first = full.iter().zip(want.iter()).position(|(a, b)| a != b).unwrap_or(full.len().min(want.len()));
+                return Some((format!("composite_key_order:{}", $name), format!("key {} (components 0 = g, 1 = r, 2 = h, 3 = score; true = ascending) {spec:?}: complete list has {} entries, entry {first} is {:?}, the model ranking has {:?}", $name, full.len(), full.get(first).map(|x| (&x.0, addr_key(&x.1))), want.get(first).map(|x| (&x.0, addr_key(&x.1))))));
+            }
+            if let Err(e) = check_windows(&want, &get, (n + 1).min(4), (n + 1).min(4)) {
+                return Some((format!("composite_key_window:{}", $name), format!("key {} {spec:?}: {e}", $name)));
+            }
+        }};
+    }
+    case!("(g,score)", vec![(0, false), (3, false)], (fg(), sc()), |k: (Option<u64>, f32)| vec![fu(k.0), k.1 as f64]);
+    case!("(score,g)", vec![(3, false), (0, false)], (sc(), fg()), |k: (f32, Option<u64>)| vec![k.0 as f64, fu(k.1)]);
+    case!("(g asc,score)", vec![(0, true), (3, false)], ((fg(), asc), sc()), |k: (Option<u64>, f32)| vec![fu(k.0), k.1 as f64]);
+    case!("(g,score asc)", vec![(0, false), (3, true)], (fg(), (sc(), asc)), |k: (Option<u64>, f32)| vec![fu(k.0), k.1 as f64]);
+    case!("(g,r,score)", vec![(0, false), (1, false), (3, false)], (fg(), fr(), sc()), |k: (Option<u64>, Option<u64>, f32)| vec![fu(k.0), fu(k.1), k.2 as f64]);
+    case!("(g,score,r)", vec![(0, false), (3, false), (1, false)], (fg(), sc(), fr()), |k: (Option<u64>, f32, Option<u64>)| vec![fu(k.0), k.1 as f64, fu(k.2)]);
+    case!("(score,g,r)", vec![(3, false), (0, false), (1, false)], (sc(), fg(), fr()), |k: (f32, Option<u64>, Option<u64>)| vec![k.0 as f64, fu(k.1), fu(k.2)]);
+    case!("(g asc,r,score asc)", vec![(0, true), (1, false), (3, true)], ((fg(), asc), fr(), (sc(), asc)), |k: (Option<u64>, Option<u64>, f32)| vec![fu(k.0), fu(k.1), k.2 as f64]);
+    case!("(g,r,h,score)", vec![(0, false), (1, false), (2, false), (3, false)], (fg(), fr(), fh(), sc()), |k: (Option<u64>, Option<u64>, Option<u64>, f32)| vec![fu(k.0), fu(k.1), fu(k.2), k.3 as f64]);
+    case!("(score,g,r,h)", vec![(3, false), (0, false), (1, false), (2, false)], (sc(), fg(), fr(), fh()), |k: (f32, Option<u64>, Option<u64>, Option<u64>)| vec![k.0 as f64, fu(k.1), fu(k.2), fu(k.3)]);
+    case!("(g asc,r,h asc,score)", vec![(0, true), (1, false), (2, true), (3, false)], ((fg(), asc), fr(), (fh(), asc), sc()), |k: (Option<u64>, Option<u64>, Option<u64>, f32)| vec![fu(k.0), fu(k.1), fu(k.2), k.3 as f64]);
+    None
+}
+
+// ---------------------------------------------------------------------------------------------
 // pruning family
 
 #[derive(Clone, Debug, serde::Serialize, serde::Deserialize, PartialEq)]
@@ -429,6 +535,34 @@ fn prune_doc_text(c: &PruneCorpus, i: usize) -> String {
     toks.join(" ")
 }
 
+/// layout 3: term frequencies beyond what one byte of block-max metadata can hold. Block 0 (documents 0..127)
+/// holds short rivals made of the term only (tf 1..16: a spectrum of high scores), block 1 (128..255) ordinary
+/// documents and, at `hot_pos`, one document repeating the term `hot_tf` (256 .. 5000) times - the best match
+/// of the segment, inside a full block whose block-max entry saturates.
+fn high_tf_doc_text(c: &PruneCorpus, i: usize) -> String {
+    let mut toks: Vec<&str> = vec![];
+    if i == c.hot_pos {
+        for _ in 0..c.hot_tf {
+            toks.push(TERMS[c.hot_term]);
+        }
+    } else if i < 128 {
+        for _ in 0..(1 + i % 16) {
+            toks.push(TERMS[c.hot_term]);
+        }
+    } else if i < 256 {
+        toks.extend([TERMS[c.hot_term], "x", "x", "x", "x"]);
+    } else {
+        toks.extend([TERMS[c.hot_term], "x"]);
+    }
+    if i % 3 == 0 {
+        toks.push(TERMS[(c.hot_term + 1) % 4]);
+    }
+    if i % 4 == 1 {
+        toks.push(TERMS[(c.hot_term + 2) % 4]);
+    }
+    toks.join(" ")
+}
+
 pub fn build_prune_index(c: &PruneCorpus) -> Index {
     let mut sb = Schema::builder();
     let _id = sb.add_u64_field("id", INDEXED | FAST | STORED);
@@ -443,7 +577,7 @@ pub fn build_prune_index(c: &PruneCorpus) -> Index {
     for i in 0..c.n {
         let mut d = TantivyDocument::default();
         d.add_u64(id, i as u64);
-        d.add_text(body, prune_doc_text(c, i));
+        d.add_text(body, if c.layout == 3 { high_tf_doc_text(c, i) } else { prune_doc_text(c, i) });
         d.add_text(title, prune_doc_text(c, (i * 7 + 3) % c.n));
         d.add_text(tag, ["u", "v", "w"][i % 3]);
         w.add_document(d).unwrap();
@@ -644,6 +778,17 @@ fn prune_corpora(thorough: bool) -> Vec<PruneCorpus> {
             }
         }
     }
+    // term frequencies above 255 inside a full block (saturating block-max metadata)
+    for hp in [128usize, 200, 255] {
+        for htf in [256usize, 300, 1000, 5000] {
+            for ht in [0usize, 3] {
+                if !thorough && (ht == 3 && hp != 200) {
+                    continue;
+                }
+                v.push(PruneCorpus { n: 300, hot_pos: hp, hot_term: ht, hot_tf: htf, layout: 3, period_shift: 0, perm: 0 });
+            }
+        }
+    }
     v
 }
 
@@ -668,6 +813,11 @@ pub fn replay(case: &Value) -> Vec<Violation> {
                 let sizes: Vec<usize> = serde_json::from_value(case["sizes"].clone()).unwrap();
                 let keys: Vec<u8> = serde_json::from_value(case["keys"].clone()).unwrap();
                 check_tie_fast(&sizes, &keys)
+            }
+            "composite" => {
+                let sizes: Vec<usize> = serde_json::from_value(case["sizes"].clone()).unwrap();
+                let keys: Vec<u8> = serde_json::from_value(case["keys"].clone()).unwrap();
+                check_composite_keys(&sizes, &keys, case["threads"].as_u64().unwrap_or(1) as usize)
             }
             "tie_deleted" => {
                 let sizes: Vec<usize> = serde_json::from_value(case["sizes"].clone()).unwrap();
@@ -766,6 +916,8 @@ pub fn run(ctx: &Ctx) -> Report {
         /// (sizes, deleted ids): custom keys, single- and multi-threaded
         Deleted(Vec<usize>, Vec<usize>),
         NonPositive(Vec<usize>),
+        /// (sizes, threads): tuple sort keys mixing fast fields and the score
+        Composite(Vec<usize>, usize),
     }
     let mut work: Vec<W> = vec![];
     let (ms, md, mt) = if thorough { (4, 5, 10) } else { (3, 3, 8) };
@@ -777,6 +929,12 @@ pub fn run(ctx: &Ctx) -> Report {
     }
     for s in shapes(3, 3, if thorough { 5 } else { 4 }) {
         work.push(W::Fast(s));
+    }
+    for s in shapes(3, if thorough { 4 } else { 3 }, if thorough { 7 } else { 6 }) {
+        work.push(W::Composite(s.clone(), 1));
+        if s.len() > 1 && thorough {
+            work.push(W::Composite(s, 3));
+        }
     }
     for c in prune_corpora(thorough) {
         work.push(W::Prune(c));
@@ -901,6 +1059,22 @@ pub fn run(ctx: &Ctx) -> Report {
                 break;
             }
         }
+        W::Composite(sizes, threads) => {
+            let n: usize = sizes.iter().sum();
+            for keys in key_assignments(n, 2) {
+                st.eval();
+                st.count("composite_key_cases");
+                st.nontrivial(&("composite", sizes, &keys, threads));
+                let r = catch_unwind(AssertUnwindSafe(|| check_composite_keys(sizes, &keys, *threads)));
+                let v = match r {
+                    Ok(None) => continue,
+                    Ok(Some((rule, what))) => (rule, what),
+                    Err(e) => ("topk_panic".to_string(), format!("{} [{}]", panic_message(e), last_panic())),
+                };
+                st.violation(Violation::new(&v.0, format!("segments {sizes:?} g keys {keys:?} threads {threads}: {}", v.1), json!({"kind":"composite","sizes":sizes,"keys":keys,"threads":threads})));
+                break;
+            }
+        }
         W::Alpha(c) => {
             st.eval();
             st.count("alpha_cases");
@@ -960,8 +1134,8 @@ pub fn run(ctx: &Ctx) -> Report {
         }
     });
     rep.set("exhaustive", done == work.len());
-    rep.set("rule", "tie family with deletes: every shape of exactly 3 segments (<= 3 docs each; thorough 4) x every set of <= 2 (thorough 3) deleted documents leaving each segment alive x 3 key patterns x {1, 3} search threads, custom keys: every window equals the slice of the ranking by (key desc, address asc) of the alive documents. Non-positive scores: every shape of <= 3 segments x 6 queries whose scores are zero, negative or mixed (const 0, boost 0, boost -1, const -2.5, demotion clause, promotion clause): every limit x offset window of order_by_score equals the slice of the exhaustive ranking. tie family: every segment shape (<= 3 segments x <= 3 docs; thorough 4 x 5) x every key assignment over {0,1} (and {0,1,2}) through tweak_score, single and multi-threaded; score ties and u64 / i64 / f64 / date / string fast-field keys with missing values, ascending and descending; every limit 1..5 x offset 0..5 window must equal the slice of the complete list ordered (key, ascending address), also when TopDocs sits inside a tuple collector, a MultiCollector or a FilterCollector. pruning family: 450-document corpora with periodic (tf, length) patterns, a hot document at each block-boundary position, tf 300, 1-2 segments and an avgdl-shifting segment x 12 queries (term, unions and intersections of 2-4 terms, required-optional, generic, msm, boosted) and 7 cross-field queries (a second text field with other lengths, a field indexed without frequencies; unions, intersections in both clause orders, required-optional) x K in {1,2,3,10,500}: TopDocs by score vs the exhaustive ranking from a non-pruning collector (exact for one clause, 4 ulp per clause otherwise). Non-trivial: assignment with a tie / every pruning case; distinct by case descriptor");
-    for k in ["tie_custom_cases", "tie_fast_cases", "prune_cases"] {
+    rep.set("rule", "tie family with deletes: every shape of exactly 3 segments (<= 3 docs each; thorough 4) x every set of <= 2 (thorough 3) deleted documents leaving each segment alive x 3 key patterns x {1, 3} search threads, custom keys: every window equals the slice of the ranking by (key desc, address asc) of the alive documents. Non-positive scores: every shape of <= 3 segments x 6 queries whose scores are zero, negative or mixed (const 0, boost 0, boost -1, const -2.5, demotion clause, promotion clause): every limit x offset window of order_by_score equals the slice of the exhaustive ranking. tie family: every segment shape (<= 3 segments x <= 3 docs; thorough 4 x 5) x every key assignment over {0,1} (and {0,1,2}) through tweak_score, single and multi-threaded; score ties and u64 / i64 / f64 / date / string fast-field keys with missing values, ascending and descending; every limit 1..5 x offset 0..5 window must equal the slice of the complete list ordered (key, ascending address), also when TopDocs sits inside a tuple collector, a MultiCollector or a FilterCollector. composite keys: every segment shape (<= 3 segments x <= 3 docs, <= 6 docs; thorough 4 / 7, also 3 search threads) x every assignment of the first component over {0,1} x 11 tuple keys of 2, 3 and 4 components (fast fields and the relevance score in every position, natural and explicitly ascending components): every limit x offset window equals the model ranking and carries the documents' true component values. pruning family: term frequencies of 256 - 5000 inside a full block (saturating block-max metadata) with a spectrum of short rivals in the preceding block; 450-document corpora with periodic (tf, length) patterns, a hot document at each block-boundary position, tf 300, 1-2 segments and an avgdl-shifting segment x 12 queries (term, unions and intersections of 2-4 terms, required-optional, generic, msm, boosted) and 7 cross-field queries (a second text field with other lengths, a field indexed without frequencies; unions, intersections in both clause orders, required-optional) x K in {1,2,3,10,500}: TopDocs by score vs the exhaustive ranking from a non-pruning collector (exact for one clause, 4 ulp per clause otherwise). Non-trivial: assignment with a tie / every pruning case; distinct by case descriptor");
+    for k in ["tie_custom_cases", "tie_fast_cases", "prune_cases", "composite_key_cases"] {
         if st.counters.get(k).copied().unwrap_or(0) == 0 {
             rep.machinery_errors.push(format!("vacuous: {k} = 0"));
         }
